@@ -13,10 +13,15 @@ package zzsimrt
 
 import (
 	"sync"
+	"unsafe"
 )
 
 // MaxTasks bounds the number of simulated callers in one run.
-const MaxTasks = 8
+const MaxTasks = 16
+
+// HarnessTasks is the number of slots for simulated callers; the slots above it hold goroutines the
+// library itself starts ("daemons"), which live across runs.
+const HarnessTasks = 8
 
 // Site flag bits (must match cmd/instr).
 const (
@@ -82,6 +87,9 @@ const (
 	OutcomeOK = iota
 	OutcomeDeadlock
 	OutcomeBudget
+	// OutcomeStuck: nothing can run and somebody waits on a channel that nothing inside the
+	// simulation will ever serve — not decidable here (reported as inconclusive, never as a violation).
+	OutcomeStuck
 )
 
 // HotYield is one hot-site yield observed in a dry pass.
@@ -105,6 +113,11 @@ type RunResult struct {
 	LockContended int
 	PreemptsFired int
 	FnPairs       []uint64 // (site-from<<32 | site-to) of in-call switches, for site-pair coverage
+	Daemons       int      // goroutines started by the library that are alive at the end of the run
+	ClockJumps    int      // times the simulated clock was advanced (idle jumps and injected jumps)
+	TimersFired   int
+	SimNow        int64 // simulated nanoseconds since the start of the process
+	DaemonSwitch  bool  // a library-started goroutine ran while a simulated caller was inside a library call
 }
 
 type task struct {
@@ -125,6 +138,14 @@ type task struct {
 	onceObj   int
 	onceRan   bool
 	hot       []HotYield
+	alive     bool
+	daemon    bool
+	wakeAt    int64  // tsSleeping: simulated time at which the task becomes runnable
+	polledAt  uint64 // tsPolling: value of progress when the task last retried its channel operation
+	body      func()
+	waitCh    unsafe.Pointer // tsPolling in a plain send/receive: the channel ...
+	waitDir   int            // ... and the direction (1 receive, 2 send)
+	meet      bool           // the partner of an unbuffered rendezvous has arrived: complete it with a blocking operation
 }
 
 const (
@@ -132,6 +153,8 @@ const (
 	tsRunnable
 	tsBlocked
 	tsDone
+	tsPolling  // waiting in a channel operation / select; retries when something has happened
+	tsSleeping // in a simulated sleep
 )
 
 var (
@@ -183,8 +206,8 @@ func cur() *task {
 		return nil
 	}
 	g := getg()
-	for i := 0; i < ntasks; i++ {
-		if tasks[i].g == g {
+	for i := 0; i < MaxTasks; i++ {
+		if tasks[i].alive && tasks[i].g == g {
 			return &tasks[i]
 		}
 	}
@@ -193,7 +216,7 @@ func cur() *task {
 
 //go:norace
 func idx(t *task) int {
-	for i := 0; i < ntasks; i++ {
+	for i := 0; i < MaxTasks; i++ {
 		if &tasks[i] == t {
 			return i
 		}
@@ -323,6 +346,15 @@ func TaskYields() uint64 {
 //go:norace
 func runnable(i int) bool {
 	t := &tasks[i]
+	if !t.alive {
+		return false
+	}
+	if t.state == tsSleeping && t.wakeAt <= simNow {
+		t.state = tsRunnable
+	}
+	if t.state == tsPolling {
+		return t.polledAt != progress // something happened since its last attempt
+	}
 	if t.state != tsRunnable {
 		return false
 	}
@@ -330,7 +362,7 @@ func runnable(i int) bool {
 		// a stalled victim runs only when every other task has finished
 		for j := 0; j < ntasks; j++ {
 			if j != i && tasks[j].state != tsDone {
-				if tasks[j].state == tsBlocked {
+				if tasks[j].state != tsRunnable {
 					continue // would deadlock otherwise: let the victim run
 				}
 				return false
@@ -344,14 +376,21 @@ func runnable(i int) bool {
 func choose(c int, kind int) int {
 	var cand [MaxTasks]int
 	nc := 0
-	for i := 0; i < ntasks; i++ {
-		if runnable(i) {
-			cand[nc] = i
-			nc++
+	for {
+		nc = 0
+		for i := 0; i < MaxTasks; i++ {
+			if runnable(i) {
+				cand[nc] = i
+				nc++
+			}
 		}
-	}
-	if nc == 0 {
-		return -1
+		if nc > 0 {
+			break
+		}
+		// nothing can run now: jump the simulated clock to the next timer or sleeper, if any
+		if !advanceToNextEvent() {
+			return -1
+		}
 	}
 	curOK := c >= 0 && runnable(c)
 	switch cfg.Mode {
@@ -360,7 +399,7 @@ func choose(c int, kind int) int {
 			e := &cfg.Explicit[expPos]
 			if e.Task == c && e.Kind == kind && e.Yield == tasks[c].n {
 				expPos++
-				if e.Next >= 0 && e.Next < ntasks && runnable(e.Next) {
+				if e.Next >= 0 && e.Next < MaxTasks && runnable(e.Next) {
 					return e.Next
 				}
 			}
@@ -368,7 +407,7 @@ func choose(c int, kind int) int {
 			e := &cfg.Explicit[expPos]
 			if e.Kind == EvStart {
 				expPos++
-				if e.Next >= 0 && e.Next < ntasks && runnable(e.Next) {
+				if e.Next >= 0 && e.Next < MaxTasks && runnable(e.Next) {
 					return e.Next
 				}
 			}
@@ -410,19 +449,25 @@ func choose(c int, kind int) int {
 //go:norace
 func reschedule(t *task, kind int) {
 	c := idx(t)
-	next := choose(c, kind)
-	if next < 0 {
-		alldone := true
-		for i := 0; i < ntasks; i++ {
-			if tasks[i].state != tsDone {
-				alldone = false
-			}
-		}
-		if alldone {
+	if harnessDone() {
+		// the run is over as soon as the last simulated caller has finished; goroutines the library
+		// started stay parked where they are and continue in the next run of this process
+		if t.daemon && t.state != tsDone {
 			wakeMain('D')
+			rawPark(t.rfd)
 			return
 		}
+		wakeMain('D')
+		return
+	}
+	next := choose(c, kind)
+	if next < 0 {
 		outcome = OutcomeDeadlock
+		for i := 0; i < MaxTasks; i++ {
+			if tasks[i].alive && tasks[i].state == tsPolling {
+				outcome = OutcomeStuck
+			}
+		}
 		detail = describeDeadlock()
 		abort(t)
 		return
@@ -467,6 +512,16 @@ func traceRec(c, kind int, n uint64, site uint32, next int) {
 }
 
 //go:norace
+func harnessDone() bool {
+	for i := 0; i < ntasks; i++ {
+		if tasks[i].state != tsDone {
+			return false
+		}
+	}
+	return true
+}
+
+//go:norace
 func record(c, kind int, n uint64, site uint32, next int) {
 	traceRec(c, kind, n, site, next)
 	swCount++
@@ -487,6 +542,13 @@ func record(c, kind int, n uint64, site uint32, next int) {
 	h = fnv(h, uint64(ns))
 	h = fnv(h, uint64(kind))
 	sig = h
+	if next >= HarnessTasks {
+		for i := 0; i < ntasks; i++ {
+			if tasks[i].inCall {
+				daemonSwitch = true
+			}
+		}
+	}
 	if c >= 0 && next >= 0 && tasks[c].inCall && tasks[next].inCall {
 		nontriv = true
 		if nPairs < len(fnPairs) {
@@ -509,13 +571,18 @@ func fnv(h, v uint64) uint64 {
 //go:norace
 func describeDeadlock() string {
 	s := "no runnable task:"
-	for i := 0; i < ntasks; i++ {
+	for i := 0; i < MaxTasks; i++ {
+		if !tasks[i].alive {
+			continue
+		}
 		switch tasks[i].state {
 		case tsBlocked:
 			o := &objs[tasks[i].blockedOn]
 			s += " task " + itoa(i) + " waits for " + objKindNames[o.kind] + "#" + itoa(tasks[i].blockedOn) + " held by task " + itoa(o.owner) + ";"
 		case tsDone:
 			s += " task " + itoa(i) + " done;"
+		case tsPolling:
+			s += " task " + itoa(i) + " waits in a channel operation;"
 		default:
 			s += " task " + itoa(i) + " state " + itoa(tasks[i].state) + ";"
 		}
@@ -602,13 +669,15 @@ func leave(i int) {
 	t := &tasks[i]
 	t.state = tsDone
 	t.inCall = false
+	progress++
 	reschedule(t, EvDone)
 	t.g = 0
+	t.alive = false
 }
 
 //go:norace
 func setup(c *RunConfig, n int) {
-	if n > MaxTasks {
+	if n > HarnessTasks {
 		panic("zzsimrt: too many tasks")
 	}
 	if !pipesOK {
@@ -632,10 +701,15 @@ func setup(c *RunConfig, n int) {
 	nsw, truncated, sig, nontriv, swCount = 0, false, 14695981039346656037, false, 0
 	outcome, detail = OutcomeOK, ""
 	onceCont, lockCont, preFired, nPairs = 0, 0, 0, 0
+	clockJumps, timersFired, daemonSwitch = 0, 0, false
+	for i := HarnessTasks; i < MaxTasks; i++ {
+		// goroutines the library started in earlier runs continue; their step accounting starts afresh
+		tasks[i].n, tasks[i].since, tasks[i].pi, tasks[i].stalled = 0, 0, 0, false
+	}
 	for i := 0; i < n; i++ {
 		t := &tasks[i]
 		rfd, wfd := t.rfd, t.wfd
-		*t = task{rfd: rfd, wfd: wfd}
+		*t = task{rfd: rfd, wfd: wfd, alive: true}
 		t.rng = (c.Seed+uint64(i)+1)*0xbf58476d1ce4e5b9 | 1
 		t.state = tsRunnable
 		t.prio = c.Prio[i]
@@ -671,6 +745,15 @@ func drive(n int) *RunResult {
 	for i := 0; i < n; i++ {
 		res.Yields[i] = tasks[i].n
 		res.Hot[i] = tasks[i].hot
+		tasks[i].alive = false
 	}
+	res.Daemons = 0
+	for i := HarnessTasks; i < MaxTasks; i++ {
+		if tasks[i].alive {
+			res.Daemons++
+		}
+	}
+	res.ClockJumps, res.TimersFired, res.SimNow = clockJumps, timersFired, simNow
+	res.DaemonSwitch = daemonSwitch
 	return res
 }
